@@ -63,7 +63,9 @@ DoPush(s, v, rec) ==
   LET r == PushR(Sh, slots[s].st, v)
   IN  /\ slots' = [slots EXCEPT ![s] = [st |-> r.st, issued |-> Append(@.issued, [idx |-> r.idx, v |-> v])]]
       /\ path' = Append(path, rec)
-      /\ res' = [idx |-> r.idx, dused |-> UsedR(Sh, r.st) - UsedR(Sh, slots[s].st)]
+      /\ res' = [idx |-> r.idx, dused |-> UsedR(Sh, r.st) - UsedR(Sh, slots[s].st),
+                  \* what this push adds to the C18 lower bound: every branch it stored into has to contribute
+                  dlb |-> PayloadR(Sh, r.st) - PayloadR(Sh, slots[s].st)]
       /\ UNCHANGED <<subj, ghost>>
 
 Push(s, f, v) == DoPush(s, v, [op |-> "push", s |-> s, f |-> f - 1, v |-> v])
